@@ -1,10 +1,81 @@
 import MazeVerif.DriverOps.Util
+import MazeVerif.Model.MazeValue
 namespace MZ.Drv.C09
-open Lean MZ.Drv
+open Lean MZ.Drv MZ.MV
 
-/-- driver ops of property C09 (`"op": "C09.<name>"`) -/
-def handle (op : String) (_j : Json) : R Json := do
+def asArr (j : Json) : R Arr := do
+  pure { dtype := ← getStr j "dtype", shape := ← getNatList j "shape", data := ← getIntList j "data" }
+
+/-- maze JSON: {kind, conn, start?, end?, sol?, meta} -/
+def asMaze (j : Json) : R Maze := do
+  let conn ← asArr (← fld j "conn")
+  let gm ← getStr j "meta"
+  match ← getStr j "kind" with
+  | "lattice" => pure (.lattice conn gm)
+  | "targeted" => pure (.targeted conn (← asArr (← fld j "start")) (← asArr (← fld j "end")) gm)
+  | "solved" => pure (.solved conn (← asArr (← fld j "start")) (← asArr (← fld j "end")) (← asArr (← fld j "sol")) gm)
+  | k => throw s!"unknown maze kind {k}"
+
+def errName : Err → String
+  | .ValueError => "ValueError" | .AssertionError => "AssertionError" | .IndexError => "IndexError" | .TypeError => "TypeError"
+
+def jRes (r : Except Err Bool) : Json :=
+  match r with
+  | .ok b => Json.bool b
+  | .error e => Json.str (errName e)
+
+def jKey : HashKey → Json
+  | .one b => Json.arr #[jNats b]
+  | .pair b1 b2 => Json.arr #[jNats b1, jNats b2]
+
+def jArr (a : Arr) : Json := obj [("dtype", Json.str a.dtype), ("shape", jNats a.shape), ("data", jInts a.data)]
+
+def jMazeRes (r : Except Err Maze) : Json :=
+  match r with
+  | .error e => obj [("ok", false), ("err", Json.str (errName e))]
+  | .ok (.lattice ..) => obj [("ok", true), ("kind", "lattice")]
+  | .ok (.targeted _ s e _) => obj [("ok", true), ("kind", "targeted"), ("start", jInts s.data), ("end", jInts e.data)]
+  | .ok (.solved _ s e p _) => obj [("ok", true), ("kind", "solved"), ("start", jInts s.data), ("end", jInts e.data),
+      ("sol", jInts p.data)]
+
+def optInts (j : Json) (k : String) : R (Option (List Int)) :=
+  match optFld j k with
+  | none => pure none
+  | some v => do pure (some (← asIntList v))
+
+/-- ops:
+  `C09.eq` {a, b} → {eq, ne, eq_rev, eq_old (dataclass-generated comparator, F1), key_a, key_b, key_equal}
+  `C09.targeted` {conn, start, end} → {ok, err | start, end}
+  `C09.solved` {conn, sol, start_arg, end_arg, allow_invalid} → {ok, err | start, end, sol}
+  `C09.dataset` {cfg_eq, a:[maze], b:[maze]} → {eq}
+  `C09.dedupe` {mazes:[maze with meta = its index]} → {kept:[meta]} -/
+def handle (op : String) (j : Json) : R Json := do
   match op with
+  | "C09.eq" =>
+    let a ← asMaze (← fld j "a")
+    let b ← asMaze (← fld j "b")
+    pure <| obj [("eq", jRes (pyEq cmpArrayEqual a b)), ("ne", jRes (pyNe cmpArrayEqual a b)),
+                 ("eq_rev", jRes (pyEq cmpArrayEqual b a)), ("eq_old", jRes (pyEq cmpElementwise a b)),
+                 ("key_a", jKey (hashKey a)), ("key_b", jKey (hashKey b)),
+                 ("key_equal", Json.bool (decide (hashKey a = hashKey b)))]
+  | "C09.targeted" =>
+    let conn ← asArr (← fld j "conn")
+    pure <| jMazeRes (mkTargeted conn (← getIntList j "start") (← getIntList j "end") "")
+  | "C09.solved" =>
+    let conn ← asArr (← fld j "conn")
+    let sol ← asArr (← fld j "sol")
+    pure <| jMazeRes (mkSolved conn sol "" (← optInts j "start_arg") (← optInts j "end_arg") (← getBool j "allow_invalid"))
+  | "C09.dataset" =>
+    let a ← (← getArr j "a").mapM asMaze
+    let b ← (← getArr j "b").mapM asMaze
+    let ce ← getBool j "cfg_eq"
+    pure <| obj [("eq", jRes (dsEq cmpArrayEqual (fun (_ _ : Unit) => ce) ⟨(), a⟩ ⟨(), b⟩))]
+  | "C09.dedupe" =>
+    let ms ← (← getArr j "mazes").mapM asMaze
+    let kept := dedupe (fun k => k) ms
+    let metaOf : Maze → String
+      | .lattice _ g => g | .targeted _ _ _ g => g | .solved _ _ _ _ g => g
+    pure <| obj [("kept", jStrs (kept.map metaOf))]
   | _ => throw s!"unknown op {op}"
 
 end MZ.Drv.C09
